@@ -6,6 +6,7 @@ import OxyModel.Model.Counter
 
     cfg n=<buckets> r=<resolution ns> [ratio]    -> ok | err buckets | err resolution
     [at <ns>] inc <v> | count | counted | window | clone | append | reset        (counter)
+    [at <ns>] snap | scount | sinc <v> | scounted | sreset   (snapshot = Clone() kept next to the live counter)
     [at <ns>] inca <v> | incb <v> | ratio | ready | reset                        (ratio)
 
 Protocol time is ns since 2020-01-01T00:00:00Z; the model's is ns since Go's zero Time. -/
@@ -15,7 +16,7 @@ namespace DriverC17
 
 inductive Obj where
   | none
-  | cnt (c : Cfg) (s : St)
+  | cnt (c : Cfg) (d : Duo)
   | rat (c : Cfg) (s : Ratio)
 
 structure DSt where
@@ -34,7 +35,7 @@ def init (f : List String) : DSt × String :=
     | .error .buckets => (⟨0, .none⟩, "err buckets")
     | .error .resolution => (⟨0, .none⟩, "err resolution")
     | .ok c =>
-      if f.contains "ratio" then (⟨0, .rat c (Ratio.init c)⟩, "ok") else (⟨0, .cnt c (St.init c)⟩, "ok")
+      if f.contains "ratio" then (⟨0, .rat c (Ratio.init c)⟩, "ok") else (⟨0, .cnt c (Duo.init c)⟩, "ok")
   | _, _ => (⟨0, .none⟩, "bad-cfg")
 
 def opCnt (c : Cfg) (s : St) (t : Nat) : List String → Option (St × String)
@@ -48,6 +49,23 @@ def opCnt (c : Cfg) (s : St) (t : Nat) : List String → Option (St × String)
     some ((append c r.1 r.2 t).1, "ok")
   | ["reset"] => some (reset s, "ok")
   | _ => none
+
+/-- ops on the live counter go through `Duo.step` / the same `inc`/`count`; snapshot ops likewise -/
+def opDuo (c : Cfg) (d : Duo) (t : Nat) (f : List String) : Option (Duo × String) :=
+  match f with
+  | ["snap"] => some (d.step c t .clone, "ok")
+  | ["sinc", v] => v.toInt?.map fun v =>
+      (d.step c t (.snap (.inc v)), if d.snap.isSome then "ok" else "none")
+  | ["scount"] =>
+    match d.snap with
+    | some s => some (d.step c t (.snap .read), toString (count c s t).2)
+    | none => some (d, "none")
+  | ["scounted"] =>
+    match d.snap with
+    | some s => some (d, toString s.counted)
+    | none => some (d, "none")
+  | ["sreset"] => some (d.step c t (.snap .reset), if d.snap.isSome then "ok" else "none")
+  | _ => (opCnt c d.live t f).map fun r => ({ d with live := r.1 }, r.2)
 
 def opRat (c : Cfg) (s : Ratio) (t : Nat) : List String → Option (Ratio × String)
   | ["inca", v] => v.toInt?.map fun v => (s.incA c t v, "ok")
@@ -72,7 +90,7 @@ def step (d : DSt) (f : List String) : DSt × String :=
     let t := now + baseSinceZeroNs
     match d.obj with
     | .none => (d, "no-scenario")
-    | .cnt c s => match opCnt c s t op with
+    | .cnt c s => match opDuo c s t op with
       | some (s', o) => (⟨now, .cnt c s'⟩, o)
       | none => (⟨now, d.obj⟩, "bad-op")
     | .rat c s => match opRat c s t op with
